@@ -39,7 +39,7 @@ RULE = ('failing evaluations only: a random target (short, long (lists of 40+ it
         'than 6; more than 6 items in a list / tuple / set / frozenset / deque, 5 in an array, 4 in a dict with int / str / mixed keys; a str of '
         'more than 30 characters incl. quotes, backslashes, control, non-ASCII and non-printable characters; an int of more than 40 digits; '
         'bytes / complex / range / builtin of more than 30; combinations) and whose repr is far shorter than a trace line - or, rarely, one that '
-        'crosses the limits glom sets (1024) - is the root target, the target of a later chain step, of a branch, of a dict value, or is injected '
+        'crosses 1024, the limit glom set before de451ae (now sys.maxsize) - is the root target, the target of a later chain step, of a branch, of a dict value, or is injected '
         '(Val(value), then a spec that fails on it) at a random leaf position of a random spec; or the SPEC is such a value (dict / tuple / list '
         'specs nested 7-9 deep, dict specs with more than 4 entries, tuples with more than 6 steps, paths / keys / T expressions longer than 30 '
         'characters). The tracer records the VALUE of every spec / target it can encode (builtin containers above leaves); the Lean model '
@@ -109,15 +109,17 @@ MANIFEST = dict(
           "str.__repr__) with the size limits as a parameter; the limits glom's instance really has are extracted on every "
           "run (c05_facts_wf: exactly the limits the model knows, every one >= 1016, fill '...', no indent, no overridden "
           "repr_* method); c05_repr_exact / c05_repr_exact_of_facts - a value within the limits is rendered exactly as "
-          "Python's repr (keys sorted, builtins by name); c05_repr_one_line - the text of a value has no line break; "
+          "Python's repr (keys sorted, builtins by name); c05_trace_value_any - for ANY value the trace value at every width "
+          "<= 250 is that of Python's repr when every limit is >= 1016 (prefix agreement, by induction over values with a "
+          "budget per nesting level; long strings must keep their quote: c05_repr_quote_unstable); c05_repr_one_line - the text of a value has no line break; "
           "c05_default_limits_elide - under reprlib's defaults short values are elided (C05-s9). The property is evaluated "
           "against Python's repr of the recorded values (a line that elides the inside of a value that fits it does not "
           "show the value)."),
     note=("partial in what is taken as given: the repr() of leaves that are not builtin containers / str / int (glom spec "
           "objects: each __repr__ calls bbrepr afresh), which characters are printable, and the Python traceback lines "
           "after the trace; the hypotheses of the lift theorem do not hold of every evaluation (e.g. the text of a nested "
-          "glom error contains a trace) - there the clauses are validated per case; beyond the limits glom sets (1024) "
-          "the model elides like glom, the exactness theorem covers values below 1016 in every dimension; the relation of "
+          "glom error contains a trace) - there the clauses are validated per case; the exactness theorem covers values below the extracted limits in every "
+          "dimension, beyond them the model elides like reprlib and c05_trace_value_any covers the visible prefix; the relation of "
           "CHILD_ERRORS to the checker's failedBranches is proved through the text (c05_text_clause4). trusted: Lean kernel + "
           "{propext, Classical.choice, Quot.sound}; harness/driver; the tracer (documented scope[glom] override) "
           "sees every nested evaluation."),
@@ -514,7 +516,7 @@ def limit_value(rng, cls=None):
     if cls == 'combined':
         a, b = limit_value(rng, rng.choice(LIMIT_CLASSES[:-1])), limit_value(rng, rng.choice(LIMIT_CLASSES[:-1]))
         return rng.choice([lambda: [a, b], lambda: {'p': a, 'q': b}, lambda: (a, [b]), lambda: {1: [a], 2: (b,)}])()
-    # beyond the limits `_BBRepr.__init__` sets (1024): elided by glom too, far right of anything a line shows
+    # beyond 1024 (the limit `_BBRepr.__init__` set before glom de451ae): far right of anything a line shows
     if cls == 'beyond_list':
         return list(range(rng.randint(1025, 1100)))
     if cls == 'beyond_str':
